@@ -215,6 +215,10 @@ class Task(Generic[T]):
         if self.auto_shortflags:
             # Must know what short names are available
             for char in name:
+                # Dashes (from translated underscores) make no sense as short
+                # flags ("--" is the remainder sentinel.)
+                if char == "-":
+                    continue
                 if not (char == name or char in taken_names):
                     names.append(char)
                     break
